@@ -826,7 +826,14 @@ def r11(ctx, rep):
             h = last_seg(str(pat_head(arm["pat"])))
             if h not in want:
                 continue
-            ww = [n for n in walk(arm["body"]) if n.get("k") == "call" and last_seg(show(n["f"])) == "write_within"]
+            # (or through a private helper of the same file that hands its first two parameters to write_within in that order)
+            wrappers = set()
+            for h_ in syn.fns:
+                if h_["crate"] == "prqlc" and h_["file"] == f["file"] and "body" in h_ and h_["name"] != "write_within" and len(h_.get("params", [])) >= 2:
+                    prm_ = [show(x.get("pat", x)).split(":")[0].strip() if isinstance(x, dict) and "pat" in x else (x.get("name") if isinstance(x, dict) else str(x).split(":")[0].strip()) for x in h_["params"]]
+                    if any(c_.get("k") == "call" and last_seg(show(c_["f"])) == "write_within" and len(c_["a"]) >= 2 and show(c_["a"][0]) == prm_[0] and show(c_["a"][1]) == prm_[1] for c_ in walk(h_["body"])):
+                        wrappers.add(h_["name"])
+            ww = [n for n in walk(arm["body"]) if n.get("k") == "call" and last_seg(show(n["f"])) in ({"write_within"} | wrappers)]
             direct = [n for n in walk(arm["body"]) if n.get("k") == "mcall" and n["m"] == "write" and not show(n["r"]).startswith("opt")]
             seen[h] = (len(ww), [show(n, maxdepth=4) for n in direct])
             second = [show(n["a"][1]) for n in ww if len(n["a"]) >= 2]
